@@ -71,8 +71,9 @@ theorem start_wf (ik : InitKind) (userW : Tens ℝ) (hu : UserWOK assort K nv us
   obtain ⟨h1, h2, h3, h4⟩ := initAff_wf assort K nv ik userW hu d hd0
   unfold realizationStart
   simp only
-  refine ⟨⟨rfl, rfl, ?_, h1, h2, h3, ?_, ?_, h4, ?_, ?_⟩, rfl⟩
+  refine ⟨⟨rfl, rfl, ?_, h1, h2, h3, ofFn_sized _ _ _ _, ?_, ?_, ?_, h4, ?_, ?_⟩, rfl⟩
   · intro hdir; simp only [hdir, ↓reduceIte]; exact ⟨rfl, rfl, rfl⟩
+  · intro hdir; simp only [hdir, ↓reduceIte, initRows]; exact ofFn_sized _ _ _ _
   · exact initRows_allNonneg K N _ _ (fun t => hd0 _)
   · split
     · exact initRows_allNonneg K N _ _ (fun t => hd0 _)
